@@ -66,7 +66,9 @@ func isAnalysedPkg(path string) bool {
 	return true
 }
 
-func loadWorld(repoDir string) (*World, error) {
+func loadWorld(repoDir string) (*World, error) { return loadWorldMin(repoDir, 30) }
+
+func loadWorldMin(repoDir string, minPkgs int) (*World, error) {
 	w := &World{RepoDir: repoDir, Fset: token.NewFileSet(), ByPath: map[string]*packages.Package{}, SSAPkg: map[string]*ssa.Package{}, Funcs: map[string]*FuncInfo{}, stats: map[string]int{}}
 
 	// 1. enumerate packages (cheap), filter out test/ and e2e/
@@ -82,8 +84,8 @@ func loadWorld(repoDir string) (*World, error) {
 		}
 	}
 	sort.Strings(patterns)
-	if len(patterns) < 30 {
-		return nil, fmt.Errorf("only %d gleece packages found under %s (expected >= 30): build not covered", len(patterns), repoDir)
+	if len(patterns) < minPkgs {
+		return nil, fmt.Errorf("only %d gleece packages found under %s (expected >= %d): build not covered", len(patterns), repoDir, minPkgs)
 	}
 
 	cfg := &packages.Config{Mode: packages.LoadAllSyntax, Dir: repoDir, Fset: w.Fset, Env: os.Environ(), Tests: false}
@@ -148,6 +150,28 @@ func loadWorld(repoDir string) (*World, error) {
 		} else if fn.Pkg == nil && fn.Origin() != nil && fn.Origin().Pkg != nil && isAnalysedPkg(fn.Origin().Pkg.Pkg.Path()) && fn.Blocks != nil {
 			w.SSAFuncs = append(w.SSAFuncs, fn)
 		}
+	}
+	// ssautil.AllFunctions visits methods of exported named types only (plus whatever is
+	// referenced); add every declared function/method and its closures so that methods of
+	// unexported types are analysed as well
+	have := map[*ssa.Function]bool{}
+	for _, f := range w.SSAFuncs {
+		have[f] = true
+	}
+	var addFn func(f *ssa.Function)
+	addFn = func(f *ssa.Function) {
+		if f == nil || have[f] || f.Blocks == nil {
+			return
+		}
+		have[f] = true
+		w.SSAFuncs = append(w.SSAFuncs, f)
+		w.stats["ssa_functions_added_from_decls"]++
+		for _, a := range f.AnonFuncs {
+			addFn(a)
+		}
+	}
+	for _, fi := range w.Funcs {
+		addFn(fi.SSA)
 	}
 	sort.Slice(w.SSAFuncs, func(i, j int) bool {
 		a, b := w.SSAFuncs[i], w.SSAFuncs[j]
